@@ -456,6 +456,9 @@ def run(ctx) -> None:
                 f"{'one representative' if quick else 'up to three representatives'} of every equivalence class; "
                 "CLI binding on every class representative. distinct/non-trivial = SHA-1 of the exported image "
                 "of a case the builder accepted")
+    ctx.rule += ("; option dimensions include the source of builder-chosen values: counter IV explicit / omitted in the "
+                 "configuration / omitted in the class-constructor API (owned RNG keeps exports reproducible), and the "
+                 "API used to hand over the settings (load_from_config / class constructor)")
     ctx.assumptions += [
         "payload lengths <= 0x3FF (+0xC00 header area for the MC56F81xxx / MCXC images, which have no IVT words: "
         "for them only build, parse and the application round trip are judged)",
